@@ -65,10 +65,11 @@ deriving DecidableEq
 
 def named (n : Bytes) (s : String) : Bool := n == asciiBytes s
 
-/-- The request as a protocol request. `none`: outside the wire model's domain — the parser
-panics (defect D11, the process dies), the name is not ASCII-lowerable in the model, or the
-generated grammar is unknown. No claim is made about such a request except that the model leaves
-connection and tables alone (`Props.C15.out_of_scope_inert`). -/
+/-- The request as a protocol request. `none`: outside the wire model's domain — the name is not
+ASCII-lowerable in the model, a number is outside the parser model's numeric domain, the request is
+empty, or the generated grammar is unknown (`Props.C15.out_of_scope_iff`; a parser panic, the former
+defect D11, no longer exists: `WireProofs.parse_ne_panic`). No claim is made about such a request
+except that the model leaves connection and tables alone (`Props.C15.out_of_scope_inert`). -/
 def classify (req : List Bytes) : Option Req :=
   match parse req with
   | .ok pc =>
